@@ -32,6 +32,11 @@ def main(argv=None) -> int:
     ap.add_argument("--repo", default=os.environ.get("VERIF_REPO", "/repo"))
     ap.add_argument("--replay")
     ap.add_argument("--jobs", type=int, default=16)
+    if argv is None:
+        argv = sys.argv[1:]
+    if argv and argv[0] == "mutate":
+        from . import mutate
+        return mutate.main(list(argv[1:]))
     a = ap.parse_args(argv)
     try:
         if a.what == "lint":
